@@ -302,6 +302,7 @@ SCALARS = [
     ['s', 'none', None], ['s', 'int', 7], ['s', 'str', 'z'], ['s', 'bool', True],
     ['s', 'float', 1.5], ['s', 'enum', ['Color', 'RED']], ['s', 'enum', ['Mode', 'SLOW']],
     ['s', 'int', -3], ['s', 'str', ''], ['s', 'enum', ['Level', 'HIGH']], ['s', 'enum', ['Kind', 'IRIS']],
+    ['s', 'str', 'undecodable-\udcff.csv'],
 ]
 
 DEFAULT_TYPES = [('TA', 4), ('TB', 3), ('TC', 3), ('TD', 2), ('TN', 2), ('TN1', 1), ('TN2', 2), ('TP', 2), ('TF', 1), ('TZ', 1), ('TW', 1)]
